@@ -131,8 +131,8 @@ func (c *Ctx) isResolverInvoke(ci ssa.CallInstruction) bool {
 }
 
 func checkC09(c *Ctx, r *Report) {
-	r.rule("C09.STICKY", "every value merged into the exclusion accumulator is the accumulator itself, the constant true, the initial false, or a value assigned on an edge on which the accumulator is known to be false (skip = skip || e); a raw assignment lets a later directive undo an earlier exclusion")
-	r.rule("C09.POL", "in the arm selected by name \"skip\" the contributed value is the boolean condition, in the arm selected by \"include\" its negation; literal and variable sub-arms alike")
+	r.rule("C09.STICKY", "constant propagation through one iteration of the evaluator's directive loop, per directive name and source of the condition, with the accumulator as a symbol: a use that does not exclude leaves the accumulator as it was (never false, never the bare condition), so a later directive cannot undo an earlier exclusion")
+	r.rule("C09.POL", "the same propagation: @skip excludes exactly when its condition is true, @include exactly when it is false, literal and variable alike; a variable that is not a boolean excludes and appends an error")
 	r.rule("C09.GATE", "every call in the selection walker that can reach an application resolver is dominated by skip==false where skip is result 0 of the directive evaluator applied to that same selection")
 	r.rule("C09.VARS", "the directive evaluator reads variables from the map it is given, the walker passes its own vars parameter through, and the entry point passes the operation's variable map (defaults included), not the caller's raw map")
 
@@ -142,7 +142,11 @@ func checkC09(c *Ctx, r *Report) {
 		return
 	}
 	r.fnSeen(fnName(ev))
-	c09Sticky(c, r, ev)
+	if !c09Table(c, r, ev) {
+		// no directive loop with a boolean accumulator to propagate through: the rules that read the
+		// statement form (an arm per directive name, skip = skip || v)
+		c09Sticky(c, r, ev)
+	}
 
 	w := c.selWalker()
 	if w == nil {
@@ -623,7 +627,7 @@ func c09Vars(c *Ctx, r *Report, w, ev *ssa.Function) {
 			}
 		}
 	}
-	r.floor("C09.VARS", "variable lookups in the evaluator", nLook, 2)
+	r.floor("C09.VARS", "variable lookups in the evaluator", nLook, 1)
 	// (c) entry point passes the operation's map (a map made there, holding defaults), never its raw vars parameter
 	entry := c.fn("(*Root).ResolveExecutable")
 	if entry == nil {
